@@ -45,6 +45,13 @@ def specs(quick):
     for cls in ("waves", "images", "dp"):
         for shape in ([3], [3, 2], [2, 3]):
             S.append({"kind": cls, "n": shape})
+    # axis layouts in which an axis that cannot be sliced (frozen phonons, samples) PRECEDES sliceable ones: what a frozen-phonon scan produces
+    for cls in ("waves", "images"):
+        for layout, shape in ((["fp", "scan"], [2, 3]), (["fp", "scan", "scan"], [2, 4, 3]), (["scan", "fp", "ordinal"], [3, 2, 2]),
+                              (["sample", "ordinal"], [2, 3]), (["fp", "tilt"], [2, 3]), (["ordinal", "fp"], [3, 2])):
+            if quick and cls == "images" and len(shape) == 3:
+                continue
+            S.append({"kind": cls, "n": shape, "layout": layout})
     return S
 
 
@@ -119,7 +126,18 @@ def make(c):
     shape = tuple(n)
     r = rng("c19", k, shape)
     axes = []
-    for i, m in enumerate(shape):
+    if c.get("layout"):
+        from abtem.core.axes import FrozenPhononsAxis, SampleAxis
+
+        for i, (kind, m) in enumerate(zip(c["layout"], shape)):
+            axes.append({"fp": lambda: FrozenPhononsAxis(), "sample": lambda: SampleAxis(),
+                         "scan": lambda: ScanAxis(label="xy"[i % 2], sampling=0.5 + 0.25 * i, offset=1.0 - i, units="Å"),
+                         "ordinal": lambda: OrdinalAxis(label="p%d" % i, values=tuple(10 * (i + 1) + j for j in range(m))),
+                         "tilt": lambda: TiltAxis(values=tuple((float(j), -float(j)) for j in range(m)))}[kind]())
+        shape_iter = []
+    else:
+        shape_iter = list(enumerate(shape))
+    for i, m in shape_iter:
         axes.append([OrdinalAxis(label="p%d" % i, values=tuple(10 * (i + 1) + j for j in range(m))), ScanAxis(label="xy"[i % 2], sampling=0.5, offset=1.0, units="Å"),
                      TiltAxis(values=tuple((float(j), -float(j)) for j in range(m)))][(i + len(shape)) % 3])
     if k == "waves":
@@ -135,7 +153,14 @@ def make(c):
 def axis_values(obj):
     out = []
     for a, m in zip(obj.ensemble_axes_metadata, obj.ensemble_shape):
-        out.append([repr(v) for v in (a.values if hasattr(a, "values") else a.coordinates(m))])
+        from abtem.core.axes import LinearAxis
+
+        if hasattr(a, "values"):
+            out.append([repr(v) for v in a.values])
+        elif isinstance(a, LinearAxis):
+            out.append(["%.9g" % v for v in a.coordinates(m)])
+        else:  # frozen phonons / samples: members carry no coordinate of their own, only their number is described
+            out.append([type(a).__name__] * m)
     return out
 
 
